@@ -349,6 +349,12 @@ var errClasses = []struct {
 	{regexp.MustCompile(`Property being deleted by deviation must exist`), "dev-delete-missing"},
 	{regexp.MustCompile(`Property not allowed in deviate|Property '.*' not allowed on node`), "dev-not-allowed"},
 	{regexp.MustCompile(`Invalid path`), "dev-bad-path"},
+	{regexp.MustCompile(`redefinition of name`), "name-clash"},
+	{regexp.MustCompile(`Choice default .* not found`), "choice-default"},
+	{regexp.MustCompile(`Leaf cannot have default and be mandatory`), "leaf-default-mandatory"},
+	{regexp.MustCompile(`Choice cannot have default and be mandatory`), "choice-default-mandatory"},
+	{regexp.MustCompile(`Grouping cycle detected`), "grouping-cycle"},
+	{regexp.MustCompile(`Unknown grouping`), "unknown-grouping"},
 }
 
 func classify(err error) string {
